@@ -248,7 +248,7 @@ def plan(tier: str):
     items.append(("multi", None))
     if tier == "thorough":
         names = [a.name for a in AT.ATOMS]
-        for i, (x, y) in enumerate(itertools.combinations(names, 2)):
+        for i, (x, y) in enumerate(AT.compatible_pairs(names)):
             items.append(("atoms", ((x, y), AT.PACKAGES[(i % 3) + 1])))
     return items
 
